@@ -1,7 +1,8 @@
 (* Uniform evaluation interface used by the correspondence harness: every model / spec function is
    reachable as  run fid args  over lists of integers, so the OCaml driver and the in-kernel
    cross-check are generic. *)
-From MS Require Import lib.Base gen.GenConst gen.GenCmd model.Frame model.Command model.Response model.Device model.Lan spec.RefFrame spec.RefAC spec.RefLan
+From MS Require Import lib.Base gen.GenConst gen.GenCmd model.Session.
+From MS Require Import model.Frame model.Command model.Response model.Device model.Lan spec.RefFrame spec.RefAC spec.RefLan
   crypto.MD5 crypto.SHA256 crypto.AES crypto.Modes.
 From RecordUpdate Require Import RecordSet.
 Import RecordSetNotations.
@@ -241,5 +242,58 @@ Definition run_lan (fid : Z) (a : list (list Z)) : option out :=
   | 56 => Some (ok [bz (ref_handshake_packet (argn a 0) (zb (arg a 1)))])
   | 57 => Some (of_opt (ref_parse_handshake_request (zb (arg a 0))) (fun '(c, t) => [[Z.of_N c]; bz t]))
   | 58 => Some (ok [bz (udpid (zb (arg a 0)))])
+  | _ => None
+  end.
+
+(* ---------------- session histories ---------------- *)
+Definition cout_of (z : Z) : Session.cout := match z with 1 => ConnRefused | 2 => ConnHang | _ => ConnOk end.
+Definition ritem_of (k f : Z) : Session.ritem :=
+  match k with 0 => RFrame (Z.to_N f) | 1 => RHsOk | 2 => RHsBad | 3 => RErr | _ => RClose end.
+Fixpoint take_items (n : nat) (l : list Z) : Session.reply * list Z :=
+  match n, l with
+  | S n', d :: k :: f :: t => let '(r, rest) := take_items n' t in ((Z.to_N d, ritem_of k f) :: r, rest)
+  | _, _ => ([], l)
+  end.
+Fixpoint replies_of (fuel : nat) (l : list Z) : list Session.reply :=
+  match fuel, l with
+  | S fu, n :: t => let '(r, rest) := take_items (Z.to_nat n) t in r :: replies_of fu rest
+  | _, _ => []
+  end.
+Definition given_of (z : Z) : option bool := match z with 1 => Some true | 2 => Some false | _ => None end.
+Fixpoint ops_of (l : list Z) : list Session.op :=
+  match l with
+  | o :: a :: b :: t =>
+    (match o with
+     | 1 => OSend (Z.to_N a) (Z.to_nat b)
+     | 2 => OAuth (given_of a) (Z.to_nat b)
+     | 3 => ODevSend (Z.to_N a)
+     | 4 => ODevAuth (zbool (2 - a))
+     | 5 => OTick (Z.to_N a)
+     | _ => OSetLife (if a <? 0 then None else Some (Z.to_N a))
+     end) :: ops_of t
+  | _ => []
+  end.
+Definition enc_outcome (o : Session.outcome) : list Z :=
+  match o with OutFrames l => 0 :: map Z.of_N l | OutUnit => [-1] | OutErr e => [exn_code e] end.
+Definition enc_event (e : Session.event) : list Z :=
+  match e with
+  | EvConnect c v3 => [1; Z.of_nat c; boolz v3]
+  | EvHs c p g => [2; Z.of_nat c; Z.of_N p; boolz g]
+  | EvData c p k f => [3; Z.of_nat c; Z.of_N p; Z.of_nat k; Z.of_N f]
+  | EvAuthOk c k => [4; Z.of_nat c; Z.of_nat k]
+  | EvClose c => [5; Z.of_nat c]
+  end.
+Definition enc_lan (l : Session.lan) : list Z :=
+  [match l_proto l with Some c => if c_closing c then 2 else 1 | None => 0 end; boolz (l_v3 l);
+   match l_creds l with None => 0 | Some true => 1 | Some false => 2 end;
+   match l_proto l with Some c => match c_key c with Some k => Z.of_nat k | None => 0 end | None => -1 end].
+
+Definition run_session (fid : Z) (a : list (list Z)) : option out :=
+  match fid with
+  | 60 =>
+    let w0 := Session.world_init (map cout_of (arg a 0)) (replies_of (length (arg a 1)) (arg a 1))
+                                 (replies_of (length (arg a 3)) (arg a 3)) in
+    let '(outs, w) := Session.run_ops (ops_of (arg a 2)) w0 in
+    Some (ok ([[Z.of_N (Session.w_now w)]; enc_lan (Session.w_lan w); [Z.of_nat (length outs)]] ++ map enc_outcome outs ++ map enc_event (Session.w_log w)))
   | _ => None
   end.
